@@ -38,6 +38,8 @@ pub fn search() -> String {
     let mut f = vec![2u8]; f.extend_from_slice(&big.to_le_bytes()); frames.push(("Changeset", f));
     let mut f = vec![1u8]; f.extend_from_slice(&1u64.to_le_bytes()); f.extend_from_slice(&big.to_le_bytes()); frames.push(("SyncNeedV1", f));
     let mut f = vec![0u8; 16]; f.extend_from_slice(&0u32.to_le_bytes()); f.extend_from_slice(&big.to_le_bytes()); frames.push(("SyncStateV1", f));
+    frames.push(("SqliteValue", vec![3, 0xff, 0xff, 0xff, 0x3f]));
+    frames.push(("SqliteValue", vec![4, 0xff, 0xff, 0xff, 0x3f]));
     frames.push(("SqliteValue", vec![3, 1, 0, 0, 0, 0xFF]));
     frames.push(("SqliteValue", vec![3, 2, 0, 0, 0, 0xC3, 0x28]));
     for (ty, bytes) in frames {
